@@ -43,6 +43,8 @@ def assigned_names(stmts):
                 tgt(n.target)
             elif isinstance(n, ast.For):
                 tgt(n.target)
+            elif isinstance(n, ast.Expr) and isinstance(n.value, ast.Yield):
+                out.append("«yield»")
             elif isinstance(n, ast.Expr) and isinstance(n.value, ast.Call) and isinstance(n.value.func, ast.Attribute) \
                     and n.value.func.attr in ("append", "pop", "insert", "extend", "add"):
                 tgt(n.value.func.value)
@@ -78,6 +80,10 @@ class StmtMixin:
         return nxt(env)
 
     def s_Return(self, s, env, nxt):
+        if "«yield»" in env:
+            if s.value is not None:
+                raise Unsupported("return with a value inside a generator")
+            return self.finish_return(*env["«yield»"])
         if s.value is None:
             return self.finish_return("()", NONE)
         return self.expr(s.value, env, self.finish_return)
@@ -106,6 +112,19 @@ class StmtMixin:
         v = s.value
         if isinstance(v, ast.Constant):          # docstring
             return nxt(env)
+        if isinstance(v, ast.Yield) and v.value is not None and "«yield»" in env:
+            # generator function: the yielded values are collected in order (laziness is not modelled)
+            nm, t = env["«yield»"]
+            t = resolve(t)
+
+            def fin_y(c, tc):
+                j = join(t.elem, tc)
+                if j is None:
+                    raise Unsupported("yield of {} after {}".format(resolve(tc).lean(), t.elem.lean()))
+                env2 = dict(env)
+                env2["«yield»"] = ("out_", TList(j))
+                return "let out_ := {} ++ [{}]\n{}".format(coerce(nm, t, TList(j)), coerce(c, tc, j), nxt(env2))
+            return self.expr(v.value, env, fin_y)
         if isinstance(v, ast.Call) and isinstance(v.func, ast.Attribute):
             f = v.func
             key = src(f.value)
@@ -160,6 +179,8 @@ class StmtMixin:
     # ------------------------------------------------------------ assignments
     def lname(self, pyname):
         """Lean identifier of a python variable / self attribute"""
+        if pyname == "«yield»":
+            return "out_"
         n = pyname.replace("self.", "self_").replace(".", "_")
         if n in LEAN_KEYWORDS:
             n = n + "'"
@@ -217,6 +238,22 @@ class StmtMixin:
                     env2[key] = (nm2, t)
                     return "let {} := Py.dictSet {} {} {}\n{}".format(nm2, nm, coerce(kc, kt, t.k), coerce(vc, vt, t.v), nxt(env2))
                 return self.exprs([target.slice, v], env, fin)
+            if isinstance(t, TList):
+                self.check_mutable(key)
+
+                def fin_l(vs):
+                    (ic, it), (vc, vt) = vs
+                    if join(t.elem, vt) is None or resolve(join(t.elem, vt)) != resolve(t.elem):
+                        raise Unsupported("list entry of another type")
+
+                    def done(nl, _t):
+                        env2 = dict(env)
+                        nm2 = self.lname(key)
+                        env2[key] = (nm2, t)
+                        return "let {} := {}\n{}".format(nm2, nl, nxt(env2))
+                    return self.as_int(ic, it, lambda iv: self.bind(
+                        "Py.listSet {} {} {}".format(nm, iv, coerce(vc, vt, t.elem)), t, done, "l"))
+                return self.exprs([target.slice, v], env, fin_l)
             raise Unsupported("item assignment on " + t.lean())
         # erased right-hand sides are not evaluated
         if self.is_erased_expr(v, env):
